@@ -279,6 +279,11 @@ class MultiHierarchy:
             raise HierarchyError(
                 'already in hierarchy: {}'.format(', '.join(ids)))
 
+        ids = [id for id, parents in subhierarchy.items() if not parents]
+        if ids:
+            raise HierarchyError(
+                'no parents specified for: {}'.format(', '.join(ids)))
+
         ids = set(data).difference(set(self._hier).union(subhierarchy))
         if ids:
             raise HierarchyError(
